@@ -34,7 +34,8 @@ class Pair:
     def __init__(self, mdib=None, fixture=FIXTURE_ONE, async_mgr=False, reference_params=False, with_consumer=True,
                  provider_ssl=None, consumer_ssl=None, force_ssl=False, role_provider='example',
                  max_subscription_duration=7200, shared_server=True, keep_ctx_states=False, consumer_init_mdib=True,
-                 alternative_hostname=None, deferred_dispatch=False, instance_id=1, sequence_id=None):
+                 alternative_hostname=None, deferred_dispatch=False, instance_id=1, sequence_id=None,
+                 periodic_reports_interval=None):
         _load_repo()
         from sdc11073.consumer.consumerimpl import SdcConsumer, default_components_factory
         from sdc11073.definitions_sdc import SdcV1Definitions
@@ -81,7 +82,8 @@ class Pair:
                                     alternative_hostname=alternative_hostname)
         p_scheme = 'https' if provider_ssl is not None else 'http'
         self.pserver = FakeHttpServer(self.net, '127.0.0.1', 10001, p_scheme)
-        self.provider.start_all(start_rtsample_loop=False, shared_http_server=self.pserver)
+        self.provider.start_all(start_rtsample_loop=False, shared_http_server=self.pserver,
+                                periodic_reports_interval=periodic_reports_interval)
         self.consumer = None
         self.cmdib = None
         if with_consumer:
